@@ -73,6 +73,7 @@ type ctCase struct {
 		} `json:"decl"`
 		Raw []ctLex `json:"raw"`
 		Ri  int     `json:"ri"`
+		St  int     `json:"st"`
 		V   ctVal   `json:"v"`
 	} `json:"job"`
 	Decision struct {
@@ -259,6 +260,10 @@ func TestVerifContractReplay(t *testing.T) {
 				}
 			case "return":
 				switch cs.Decision.D {
+				case "sendstatus":
+					if r.Status != j.St || !reflect.DeepEqual(ctNorm(r.JSON), ctNorm(j.V.goValue())) {
+						report("status-return-altered", fmt.Sprintf("status %d (want %d) body %s", r.Status, j.St, strings.TrimSpace(r.Body)))
+					}
 				case "send":
 					if r.Status != 200 || !reflect.DeepEqual(ctNorm(r.JSON), ctNorm(j.V.goValue())) {
 						report("conforming-return-refused", fmt.Sprintf("status %d body %s", r.Status, strings.TrimSpace(r.Body)))
